@@ -52,9 +52,16 @@ macro_rules! sp { ($l:expr, $m:ident, $k:expr) => {{
         _ => tracing::$m!(target: "tgt_sp", parent: None, "my_span", k = $k),
     };
     outs.push(take());
-    let g = s.enter(); outs.push(take());
-    drop(g); outs.push(take());
-    drop(s); outs.push(take());
+    if ($k / 4) % 2 == 0 {
+        let g = s.enter(); outs.push(take());
+        drop(g); outs.push(take());
+        drop(s); outs.push(take());
+    } else {
+        // the owned guard: `entered()` consumes the handle, `exit()` gives it back
+        let g = s.entered(); outs.push(take());
+        let s = g.exit(); outs.push(take());
+        drop(s); outs.push(take());
+    }
     outs.join("+")
 }}; }
 
